@@ -11,6 +11,7 @@ from ..core import (
     walk_local,
     calls_in,
     block_raises,
+    bound_args,
 )
 from ..cfg import cfg_of
 from .. import grammar as G
@@ -57,6 +58,11 @@ def run(prog, rep, tier):
     from ..core import reuse_rule
     reuse_rule(rep, C11.r11_2, "R15.8", prog)
     reuse_rule(rep, C11.r11_1, "R15.8", prog)
+    # "one indicator column per level in sorted or declared order": the response is coded in full (R15.2), and the full coding is
+    # the identity over the caller's level list with the labels in that same order (the full-coding obligations of C04's R4.2)
+    from . import C04
+    reuse_rule(rep, C04.r4_2, "R15.9", prog, keep=lambda it: it.get("function", "").endswith(".code_with_intercept"))
+    rep.floor("R15.9", 2)
     from . import shared
     # "the response must be a single term" counts terms after `+` has merged equal ones: two different subsets y[a] + y[b]
     # must stay two terms, i.e. the identity of terms and variables must not lose the level (C02's R2.1, reported as R15.1)
@@ -133,7 +139,10 @@ def r15_2(prog, rep):
     obl(rep, rm, rm.node, "R15.2", ok, "ResponseMatrix.evaluate: set_type before set_data")
     rs = prog.fn("terms.terms.Response.set_data")
     calls = [x for x in calls_in(rs.node) if unparse(x.func) == "self.term.set_data"]
-    ok = len(calls) == 1 and ([unparse(k.value) for k in calls[0].keywords if k.arg == "spans_intercept"] == ["True"] or [unparse(z) for z in calls[0].args] == ["True"])
+    # the argument is bound against Term.set_data's own signature (its single parameter may be renamed together with the keyword)
+    tsd = prog.fn("terms.terms.Term.set_data")
+    b = bound_args(tsd.node, calls[0], skip_first=True) if len(calls) == 1 else None
+    ok = b is not None and len(tsd.params) == 2 and b.get(tsd.params[1]) == "True"
     obl(rep, rs, calls[0] if calls else rs.node, "R15.2", ok, "the response is always coded with spans_intercept=True (one indicator per level)", "",
         "a categorical response would be coded with a reduced (n-1 column) contrast")
     ce = prog.fn("terms.terms.create_extra_term")
@@ -173,7 +182,13 @@ def r15_3(prog, rep):
     rv = prog.fn("resolver.Resolver.visitVariableExpr")
     p = rv.params[1]
     rets = [n for n in walk_local(rv.node) if isinstance(n, ast.Return)]
-    ok = len(rets) == 1 and unparse(rets[0].value) == f"Term(Variable({p}.name.lexeme, level))"
+    # Term(Variable(<identifier>, level)) - arguments bound against Variable.__init__ (keywords / spelled-out defaults are the same call)
+    vinit = prog.fn("terms.variable.Variable.__init__")
+    ok = len(rets) == 1 and isinstance(rets[0].value, ast.Call) and unparse(rets[0].value.func) == "Term" and len(rets[0].value.args) == 1 \
+        and not rets[0].value.keywords and isinstance(rets[0].value.args[0], ast.Call) and unparse(rets[0].value.args[0].func) == "Variable"
+    if ok:
+        b = bound_args(vinit.node, rets[0].value.args[0], skip_first=True)
+        ok = b == {"name": f"{p}.name.lexeme", "level": "level", "is_response": "False"}
     lv = [s for s in ast.walk(rv.node) if isinstance(s, ast.Assign) and unparse(s.targets[0]) == "level"]
     ok = ok and sorted(unparse(s.value) for s in lv) == sorted([f"{p}.level.value", "None"])
     obl(rep, rv, rv.node, "R15.3", ok, "the resolver hands level.value (or None) as the second argument of terms.Variable")
